@@ -4,6 +4,7 @@ import GdVerif.Run.GenValve
 import GdVerif.Run.ValveFaults
 import GdVerif.Run.Gs1
 import GdVerif.Run.GenGs1
+import GdVerif.Run.Gs1Faults
 import GdVerif.Run.Gs2
 import GdVerif.Run.GenGs2
 import GdVerif.Run.Gs2Faults
@@ -21,8 +22,10 @@ import GdVerif.Run.GenQuake
 import GdVerif.Run.QuakeFaults
 import GdVerif.Run.Unreal2
 import GdVerif.Run.GenUnreal2
+import GdVerif.Run.Unreal2Faults
 import GdVerif.Run.Minecraft
 import GdVerif.Run.GenMinecraft
+import GdVerif.Run.McFaults
 import GdVerif.Run.Gs3
 import GdVerif.Run.Jc2m
 import GdVerif.Run.GenGs3
@@ -31,6 +34,7 @@ import GdVerif.Run.GenJc2m
 import GdVerif.Run.Jc2mFaults
 import GdVerif.Run.Small
 import GdVerif.Run.FfowFaults
+import GdVerif.Run.MindustryFaults
 /-
   gdmodel: the model behind a line protocol.
     gdmodel run        : reads `<id> <entry> <args…>` lines on stdin, prints `<id> <outcome>`
@@ -57,14 +61,18 @@ def allEntries : List (String × (List String → String)) := List.flatten [
   quakeEntries,
   quakeFaultEntries,
   unreal2Entries,
+  unreal2FaultEntries,
   McDrv.minecraftEntries,
+  McGen.mcFaultEntries,
   gs3Entries,
   gs3FaultEntries,
   jc2mEntries,
   jc2mFaultEntries,
   smallEntries,
   ffowFaultEntries,
+  mindustryFaultEntries,
   gs1Entries,
+  gs1FaultEntries,
   gs2Entries,
   gs2FaultEntries
   ]
